@@ -121,7 +121,9 @@ def compile_flags(repo=None):
             shutil.rmtree(tmp, ignore_errors=True)
     if incs is None:
         incs = ['-I' + repo, '-I' + os.path.join(repo, 'Compiler/include')]
-    flags = ['-std=gnu++20', '-x', 'c++', '-UNDEBUG', '-w', '-resource-dir', _resource_dir()] + incs
+    # -Wno-c++11-narrowing: clang rejects a narrowing conversion in a braced initialiser that g++ (the compiler of the build) accepts with a
+    # warning; such a tree builds and runs, so it is analysed (the narrowing itself is what the width rules report)
+    flags = ['-std=gnu++20', '-x', 'c++', '-UNDEBUG', '-w', '-Wno-c++11-narrowing', '-resource-dir', _resource_dir()] + incs
     info['db_units'] = db_units
     _flags_cache[repo] = (flags, info)
     return flags, info
